@@ -311,13 +311,45 @@ class StmtMixin:
         return fr.loop_ids[id(node)]
 
     def havoc_for_loop(self, body_stmts, extra_names=()):
+        """Forget what the loop body may change.  Mutations happen through names; each such name denotes a place
+        (a Ref): only that place is havocked, so everything outside it stays the *same term* as before the loop.
+        Names that are (re)bound inside the loop are resolved to the names their right-hand sides are rooted in."""
         names, roots = assigned_names(body_stmts)
         names |= set(extra_names)
         env = self.st.env
-        # calls to contract functions that modify an argument
+
+        def root_name(e):
+            while isinstance(e, (ast.Attribute, ast.Subscript, ast.Call, ast.Starred, ast.Await)):
+                if isinstance(e, ast.Call):
+                    e = e.func if not (isinstance(e.func, ast.Name)) else (e.args[0] if e.args else e.func)
+                else:
+                    e = e.value
+            return e.id if isinstance(e, ast.Name) else None
+
+        alias: dict[str, set] = {}
+
+        def add_alias(t, src):
+            if isinstance(t, ast.Name):
+                r = root_name(src)
+                if r:
+                    alias.setdefault(t.id, set()).add(r)
+            elif isinstance(t, (ast.Tuple, ast.List)):
+                for x in t.elts:
+                    add_alias(x, src)
+
         for st in body_stmts:
             for n in ast.walk(st):
-                if isinstance(n, ast.Call):
+                if isinstance(n, ast.Assign):
+                    for t in n.targets:
+                        add_alias(t, n.value)
+                elif isinstance(n, ast.AnnAssign) and n.value is not None:
+                    add_alias(n.target, n.value)
+                elif isinstance(n, (ast.For, ast.AsyncFor)):
+                    add_alias(n.target, n.iter)
+                elif isinstance(n, ast.NamedExpr):
+                    add_alias(n.target, n.value)
+                elif isinstance(n, ast.Call):
+                    # calls to contract functions that modify an argument
                     fq = self.static_callee(n)
                     c = self.specs.contract(fq) if fq else None
                     if c is not None and c.modifies:
@@ -326,22 +358,32 @@ class StmtMixin:
                         for m in c.modifies:
                             if m in pnames:
                                 i = pnames.index(m)
-                                arg = n.args[i] if i < len(n.args) else next((k.value for k in n.keywords if k.arg == m), None)
-                                e = arg
-                                while isinstance(e, (ast.Attribute, ast.Subscript)):
-                                    e = e.value
-                                if isinstance(e, ast.Name):
-                                    roots.add(e.id)
-        cells = set()
-        for r in roots:
+                                arg = n.args[i] if i < len(n.args) else next(
+                                    (k.value for k in n.keywords if k.arg == m), None)
+                                r = root_name(arg) if arg is not None else None
+                                if r:
+                                    roots.add(r)
+        # close the mutated roots under "is (re)bound in the loop from something rooted at ..."
+        frontier = set(roots)
+        changed = True
+        while changed:
+            changed = False
+            for r in list(frontier):
+                if r in names:
+                    for a in alias.get(r, ()):
+                        if a not in frontier:
+                            frontier.add(a)
+                            changed = True
+        for r in sorted(frontier):
             v = env.get(r)
-            if isinstance(v, Ref):
-                cells.add(v.cell)
-        for cid in cells:
-            cur = self.st.cells[cid]
+            if not isinstance(v, Ref):
+                continue
+            cur = self.read_ref(v)
             if cur.term is None:
-                raise Unsupported("loop mutates an untyped empty container (annotate it)")
-            self.st.cells[cid] = SV(self.w.fresh(cur.ty, "loop"), cur.ty)
+                raise Unsupported(f"loop mutates '{r}', an untyped empty container (annotate it)")
+            if v in self.st.dead_refs:
+                continue
+            self.write_ref(v, SV(self.w.fresh(cur.ty, f"loop_{r}"), cur.ty))
         for nme in names:
             v = env.get(nme)
             if v is None:
@@ -405,7 +447,7 @@ class StmtMixin:
         try:
             f0 = self.eval_inv(inv, k, "entry", line, {"_i": SV(z3.IntVal(0), T.INT)})
             self.oblige("inv-entry", f"loop{k}", f0, line)
-            self.havoc_for_loop(st.body + [ast.Assign([st.target], ast.Constant(None), lineno=line)])
+            self.havoc_for_loop(st.body + [ast.Assign([st.target], st.iter, lineno=line)])
             src = self.iter_source(st.iter)
             var, dom, el, pos, size = self.domain(src, "it")
             if pos is None or size is None:
@@ -445,7 +487,10 @@ class StmtMixin:
         if isinstance(src, SV):
             return src.term
         if isinstance(src, DictView):
-            return src.d.term
+            if src.d.term is None:
+                return None
+            _, has, _ = self.dct(src.d)
+            return has(src.d.term)  # only the key set matters for iteration
         if isinstance(src, EnumerateV):
             return self._src_term(src.seq)
         return None
